@@ -32,19 +32,22 @@ class ModelNotImplemented(Exception):
 # ------------------------------------------------------------------------------------------------------ generator
 
 
-def _swap_in_packages(draw, ast, table_asts):
-    """replace some rc atoms by package atoms whose body is an rc-carrying expression; returns (written, expanded)"""
+def _swap_in_packages(draw, ast, table_asts, one_in=5):
+    """
+    replace some rc atoms (one in `one_in`) by package atoms whose body is an rc-carrying expression; returns
+    (written, expanded).  one_in=1 writes every requirement constraint as a package: several packages, at any depth
+    """
     if not table_asts:
         return ast, ast
     if ref.is_atom(ast):
-        if ast[0] == "rc" and draw(st.sampled_from(range(5))) == 0:
+        if ast[0] == "rc" and draw(st.sampled_from(range(one_in))) == 0:
             key = draw(st.sampled_from(sorted(table_asts)))
             rep = draw(st.sampled_from([None, None, "0..1", "1..2"]))
             return ["pkg", key, rep], table_asts[key]
         return ast, ast
     written, expanded = [], []
     for child in ast[1]:
-        w, e = _swap_in_packages(draw, child, table_asts)
+        w, e = _swap_in_packages(draw, child, table_asts, one_in)
         written.append(w)
         expanded.append(e)
     return [ast[0], written], [ast[0], expanded]
@@ -66,11 +69,12 @@ def node_expression(draw, table_asts=None, max_parts=3, size=4, soll_bias=False,
         if draw(st.sampled_from(range(4))) == 0:
             shape.append([draw(gen.indicator_text(words)), False])
     parts, rendered = [], []
+    one_in = draw(st.sampled_from([5, 5, 5, 1]))
     for indicator, has_cond in shape:
         expanded, cond = None, None
         if has_cond:
             ast = draw(gen.g_dom(max_atoms=size, mode="valid", pools=POOLS, fc_dense=fc_dense))
-            written, expanded = _swap_in_packages(draw, ast, table_asts or {})
+            written, expanded = _swap_in_packages(draw, ast, table_asts or {}, one_in)
             cond = gen.render(draw, written, redundant=False, spaces=draw(st.booleans()), top=False)
         parts.append([indicator, expanded])
         rendered.append((indicator, cond))
